@@ -20,4 +20,6 @@ f1_1:
   call f8_0
   call f14_0
   call f24_2
+  mov wvsv1@GOTPCREL(%rip),%rax
+  mov wvsv1(%rip),%rax
   ret
